@@ -109,6 +109,9 @@ impl Listing {
 
     pub fn renum(&mut self, new_start: u16, old_start: u16, step: u16) -> Result<(), Error> {
         let mut changes: HashMap<u16, u16> = HashMap::default();
+        if step == 0 {
+            return Err(error!(IllegalFunctionCall));
+        }
         let mut old_end: u16 = LineNumber::max_value() + 1;
         let mut new_num = new_start;
         for (&ln, _) in self.source.iter() {
